@@ -288,6 +288,10 @@ class C02(CreateProp):
              "what": "mutant: short first piece padded to a full piece"},
             {"module": "HasherV2.tla", "cfg": "MC_HasherV2_m_nopadlayers.cfg", "expect": "fail",
              "what": "mutant: layer hashes not padded to a power of two"},
+            {"module": "Assemble.tla", "cfg": "MC_Assemble.cfg",
+             "what": "v2 assembly: leaves carry RefRoot, piece layers = files larger than a piece"},
+            {"module": "Assemble.tla", "cfg": "MC_Assemble_m_ge.cfg", "expect": "fail",
+             "what": "mutant: size >= P decides piece-layer membership"},
         ])
 
     def cases(self, tier, rng):
@@ -313,10 +317,14 @@ class C03(CreateProp):
             "TorrentFileHybrid, CLI}); non-trivial as C01")
 
     def mc(self, tier):
-        return hasher_mc()
+        return hasher_mc([
+            {"module": "Assemble.tla", "cfg": "MC_Assemble.cfg",
+             "what": "hybrid assembly (file list, padding entries, piece string, single file) for all size vectors"},
+            {"module": "Assemble.tla", "cfg": "MC_Assemble_m_padsingle.cfg", "expect": "fail",
+             "what": "pinned commit: single file's last piece zero-extended"}])
 
     def cases(self, tier, rng):
-        cl = ["C03.order", "C03.boundary", "C03.padattr", "C03.pieces", "C03.single"]
+        cl = ["C03.order", "C03.boundary", "C03.padattr", "C03.pieces", "C03.single", "M03.impl"]
         out = []
         combos = [("TorrentAssembler", 3), ("TorrentFileHybrid", 3), ("cli", 3)]
         for n, (sh, sizes, P) in enumerate(gen_trees(tier, rng, plens(tier), 200, 10000)):
